@@ -40,12 +40,12 @@ PROPS = {
     },
     "C03": {
         "rule": "server side: 1..4 hostile connections x 1..3 hostile messages each (50 % generated requests with 1..4 mutations, 40 % valid skeletons with hostile "
-                "header/cookie/media-type/number values and hostile chunk framing, 10 % raw garbage) in drawn segmentations beside a well-behaved "
+                "header/cookie/media-type/number values and hostile chunk framing, 10 % raw garbage; 12 % replaced by a well-formed request whose header section trickles in over hundreds of reads) in drawn segmentations beside a well-behaved "
                 "keep-alive client on the same worker(s); client side: the real HTTP client against a scripted server that answers 60 % of 1..10 requests with "
                 "mutated responses, hostile status lines / header / Set-Cookie values or garbage, dribbled; AddressSanitizer+UBSan build (annotated containers) and plain build with allocation watch; "
                 + NONTRIVIAL,
         "probes_expected": ["hostile-input-served", "hostile-input-error-400", "hostile-input-error-413", "hostile-input-error-500", "hostile-input-unanswered",
-                            "hostile-response-accepted", "hostile-response-rejected", "well-formed-exchange"],
+                            "hostile-response-accepted", "hostile-response-rejected", "well-formed-exchange", "trickled-request-served"],
         "assumptions": ["only what a network peer can reach is covered: the request parser inside a running endpoint, the response parser inside a running client; the value parsers are reached through HeadersStep only",
                         "allocation bound: no single allocation above 4 x maximum request size + 64 KiB while the hostile input is handled (plain build)"],
         "quick": {"batches": [("c03_hostile", "asan", 5000), ("c03_hostile", "plain", 20000), ("c15_hostile_server", "asan", 2500), ("c15_hostile_server", "plain", 8000)], "chunk": 200},
@@ -68,25 +68,26 @@ PROPS = {
         "rule": "L0: sequences of 2..8 generated messages (complete, or abandoned by an error in mid-message: size limit, bad chunk size, conflicting "
                 "framing, other mutations), each in its own drawn segmentation, on one reused parser (reset where Handler::onInput / "
                 "Connection::handleResponsePacket reset it) versus a fresh parser per message; L1: the same sequences on one keep-alive connection "
-                "to a real endpoint versus a fresh connection per message; distinct = distinct (scenario, plan hash, event-log hash)",
+                "to a real endpoint versus a fresh connection per message; c04_client: the real HTTP client with one pooled connection, 2..8 requests one after the other, a scripted server that answers "
+                "with well-formed responses or with responses the client must refuse (too long, bad chunk size, header line without colon) whose last byte arrives with the read that makes the client refuse them; distinct = distinct (scenario, plan hash, event-log hash)",
         "probes_expected": ["after-first", "after-complete-no-body", "after-complete-content-length", "after-complete-chunked", "after-error-413-in-oversized-body",
                             "after-error-400-in-chunked", "after-error-400-in-content-length", "l1-after-first", "l1-after-complete-chunked",
-                            "l1-after-error-413-in-oversized-body"],
+                            "l1-after-error-413-in-oversized-body", "after-too-long", "after-bad-chunk", "after-bad-header", "after-good"],
         "assumptions": ["every message starts in a new segment (pipelining inside one read is outside the statement)",
                         "an abandoned message ends with the segment that triggers the framework's error answer"],
-        "quick": {"batches": [("c04_l0", "plain", 40000), ("c04_l1", "plain", 8000), ("c04_l0", "asan", 4000)], "chunk": 500},
-        "thorough": {"batches": [("c04_l0", "plain", 400000), ("c04_l1", "plain", 40000), ("c04_l0", "asan", 40000), ("c04_l1", "asan", 4000)], "chunk": 500},
+        "quick": {"batches": [("c04_l0", "plain", 40000), ("c04_l1", "plain", 8000), ("c04_l0", "asan", 4000), ("c04_client", "plain", 12000), ("c04_client", "asan", 1500)], "chunk": 500},
+        "thorough": {"batches": [("c04_l0", "plain", 400000), ("c04_l1", "plain", 40000), ("c04_l0", "asan", 40000), ("c04_l1", "asan", 4000), ("c04_client", "plain", 150000), ("c04_client", "asan", 15000)], "chunk": 500},
     },
     "C08": {
         "rule": "1..4 rounds of 1..6 concurrent connections against Http::Endpoint (75 %) or a raw Tcp::Listener (25 %), client behaviour drawn per "
-                "connection from 27 kinds (orderly, close mid-request, half-close, RST idle / with unread data / with pending writes, silence, partial "
+                "connection from 29 kinds (orderly, close mid-request, half-close, RST idle / with unread data / with pending writes, silence, partial "
                 "request then silence, giving up near the idle time-out, stalled reader across idle scans - also one that sends again the moment it wakes up -, response time-outs armed/disarmed, file "
                 "responses completed or aborted, replies from another thread aborted, never answered, chunked streams, reset right behind a request); a tenth of the runs each concentrate on clients that leave at about the moment "
                 "an application thread answers them, and on streamed responses (flush) next to clients that reset; thread stalls and slow thread starts injected; " + NONTRIVIAL,
         "probes_expected": ["behaviour-" + b for b in ["orderly", "close-mid-request", "half-close", "rst-idle", "rst-unread", "rst-pending", "silence",
                             "partial-then-silence", "tmo", "tmoreply", "file", "file-abort", "async-abort", "never-close", "stream",
                             "silence-close-near-timeout", "silence-abort-near-timeout", "stall-beyond-timeout",
-                            "abandon-at-once-close", "abandon-at-once-abort", "abandon-at-once-half-close", "tmo-then-close", "tmo-then-abort", "stall-resume-trickle", "request-then-abort-quickly", "async-close", "tmo-moved"]],
+                            "abandon-at-once-close", "abandon-at-once-abort", "abandon-at-once-half-close", "tmo-then-close", "tmo-then-abort", "stall-resume-trickle", "request-then-abort-quickly", "async-close", "tmo-moved", "stall-then-leave", "stream-then-abort-quickly"]],
         "assumptions": ["the descriptor census is taken after all clients are gone and the longest time-out plus 1.5 s have elapsed"],
         "quick": {"batches": [("c08_lifecycle", "plain", 15000), ("c08_moved_timeout", "plain", 64), ("c08_moved_timeout", "asan", 64), ("c08_lifecycle", "asan", 1500), ("c08_lifecycle", "tsan", 500), ("c08_lifecycle", "tsanat", 4000)], "chunk": 100},
         "thorough": {"batches": [("c08_lifecycle", "plain", 80000), ("c08_moved_timeout", "plain", 500), ("c08_moved_timeout", "asan", 500), ("c08_lifecycle", "asan", 8000), ("c08_lifecycle", "tsan", 8000), ("c08_lifecycle", "tsanat", 30000)], "chunk": 200},
@@ -115,11 +116,12 @@ PROPS = {
     },
     "C07": {
         "rule": "one worker; connection 0 requests 1..4 responses larger than its buffers and stops reading for 0.2..3 s; 1..3 neighbour connections "
-                "issue small requests before, during and after the stall; " + NONTRIVIAL,
-        "probes_expected": ["eagain-branch", "short-write"],
+                "issue small requests before, during and after the stall; c07_http: the same through the HTTP layer (one worker; the stalled connection asks for fixed-length responses, "
+                "replies from an application thread, files and chunked streams whose handler flushes every chunk on the worker thread; keep-alive neighbours); " + NONTRIVIAL,
+        "probes_expected": ["eagain-branch", "short-write", "stalled-size", "stalled-async", "stalled-file", "stalled-stream"],
         "assumptions": ["latency bound for neighbours: 100 simulated ms (quanta are microseconds; no thread stalls are injected in this scenario)"],
-        "quick": {"batches": [("c07_stall", "plain", 3000), ("c06_writes", "plain", 4000)], "chunk": 50},
-        "thorough": {"batches": [("c07_stall", "plain", 30000), ("c06_writes", "plain", 50000)], "chunk": 200},
+        "quick": {"batches": [("c07_stall", "plain", 3000), ("c06_writes", "plain", 4000), ("c07_http", "plain", 5000), ("c07_http", "asan", 500)], "chunk": 50},
+        "thorough": {"batches": [("c07_stall", "plain", 30000), ("c06_writes", "plain", 50000), ("c07_http", "plain", 60000), ("c07_http", "asan", 5000), ("c07_http", "tsan", 5000)], "chunk": 200},
     },
     "C09": {
         "rule": "endpoint with 1..4 workers and a shared Rest::Router; 2..8 keep-alive clients x 1..6 requests with unique tags over routed methods, "
@@ -137,13 +139,14 @@ PROPS = {
     "C11": {
         "rule": "promise programs (1..4 roots, 1..10 then/whenAll/whenAny/whenAll(range) nodes, continuation kinds value/void/"
                 "resolved-promise/pending-promise/rejected-promise, handlers ignore/rethrow/custom) with one attach/settle action per node, "
-                "distributed over 1..3 simulated parties; the scheduler orders whole actions; a reference model replays the executed order; "
+                "distributed over 1..3 simulated parties; the scheduler orders whole actions; a reference model replays the executed order; the values are of a type that shows when the "
+                "object stored in a promise has been moved from; c12_combinators (shared with C12): the inputs of whenAll/whenAny settled by two threads at once; "
                 + NONTRIVIAL,
         "probes_expected": ["then-value", "then-void", "then-resolved", "then-pending", "then-rejected", "whenAll", "whenAny", "whenAllRange",
                             "settle-reject", "settle-fulfil", "expect-fulfil", "expect-reject", "left-open"],
         "assumptions": ["what flows past a rejection handler that does not rethrow, and the promise derived from a continuation that returns nothing, are left open (the statement does not constrain them)"],
-        "quick": {"batches": [("c11_programs", "plain", 200000), ("c11_programs", "asan", 10000)], "chunk": 2000},
-        "thorough": {"batches": [("c11_programs", "plain", 1500000), ("c11_programs", "asan", 60000)], "chunk": 5000},
+        "quick": {"batches": [("c11_programs", "plain", 200000), ("c11_programs", "asan", 10000), ("c12_combinators", "plain", 60000)], "chunk": 2000},
+        "thorough": {"batches": [("c11_programs", "plain", 1500000), ("c11_programs", "asan", 60000), ("c12_combinators", "plain", 600000), ("c12_combinators", "tsan", 60000)], "chunk": 5000},
     },
     "C12": {
         "rule": "one settling thread and 1..2 attaching threads on a promise family of 8 shapes (root, derived by value/void/promise-returning "
@@ -159,11 +162,12 @@ PROPS = {
     },
     "C13": {
         "rule": "plans (1..4 producers x 1..5 pushes, start delays, gaps, prefill, pollable or plain queue) and schedules "
-                "(uniform random / PCT / sticky) drawn from VERIF_SEED; " + NONTRIVIAL,
-        "probes_expected": ["consumer-woken", "prefilled-before-consumer", "plain-queue"],
+                "(uniform random / PCT / sticky) drawn from VERIF_SEED; c13_transport: the queues' real consumers - the event loops of Tcp::Transport - with 2..8 connections arriving at about "
+                "the same time on 1..2 workers and an application thread that arms response time-outs (timers queue) and sends replies (writes queue) for them back to back; " + NONTRIVIAL,
+        "probes_expected": ["consumer-woken", "prefilled-before-consumer", "plain-queue", "kind-tmoasync", "kind-async"],
         "assumptions": ["single consumer (as in Pistache's own use of the queue)"],
-        "quick": {"batches": [("c13_queue", "plain", 150000), ("c13_queue", "tsan", 15000), ("c13_queue", "tsanat", 30000)], "chunk": 2000},
-        "thorough": {"batches": [("c13_queue", "plain", 1000000), ("c13_queue", "tsan", 150000), ("c13_queue", "tsanat", 300000)], "chunk": 5000},
+        "quick": {"batches": [("c13_queue", "plain", 150000), ("c13_queue", "tsan", 15000), ("c13_queue", "tsanat", 30000), ("c13_transport", "plain", 20000), ("c13_transport", "tsan", 2000)], "chunk": 2000},
+        "thorough": {"batches": [("c13_queue", "plain", 1000000), ("c13_queue", "tsan", 150000), ("c13_queue", "tsanat", 300000), ("c13_transport", "plain", 300000), ("c13_transport", "tsan", 30000), ("c13_transport", "tsanat", 30000)], "chunk": 5000},
     },
 }
 
@@ -177,7 +181,7 @@ MANIFEST_TEXT = {
             "design_ref": "4.1", "note": "differential oracle against the same build (no second opinion about HTTP); the exhaustive sub-space is per generated message, the space of messages is sampled; " + SC_NOTE},
     "C04": {"level": "seeded search over message sequences x segmentations x abandon points, differential between a reused and a fresh parser / connection",
             "design_ref": "4.3", "note": "the L0 part drives the parser with the reset protocol of Handler::onInput; the reset call sites themselves are exercised by the L1 part (real endpoint) and by C15 (real client); " + SC_NOTE},
-    "C08": {"level": "seeded search over connection-event histories (27 client behaviours, 1..6 concurrent connections, several rounds) with callback-sequence, exactly-once-release, descriptor-census and peer-release oracles",
+    "C08": {"level": "seeded search over connection-event histories (29 client behaviours, 1..6 concurrent connections, several rounds) with callback-sequence, exactly-once-release, descriptor-census and peer-release oracles",
             "design_ref": "4.6", "note": "double releases are observed by the simulated kernel (close / epoll_ctl / I/O on a descriptor that is not open); " + SC_NOTE},
     "C14": {"level": "seeded search over request sizes around the drawn limit x segmentations, and over stall points x stall durations on either side of the drawn time-outs, on the simulated clock",
             "design_ref": "4.11", "note": "durations within 0.3 s below / 0.8 s above a time-out are not judged; " + SC_NOTE},
